@@ -32,6 +32,8 @@ def dispatch (j : Json) : R Json := do
   | "router.construct" => opRouterConstruct j
   | "router.localize" => opRouterLocalize j
   | "router.path_builder" => opRouterPathBuilder j
+  | "router.nested" => opRouterNested j
+  | "router.tables" => opRouterTables j
   | "locale.parse" => opLocaleParse j
   | "locale.describe" => opLocaleDescribe j
   | "locale.config" => opLocaleConfig j
